@@ -4,8 +4,9 @@
    handler: they range over all script pairs and all schedules of the rendezvous fragment [wf]
    (every send meets a ready receiver, nothing is in flight when the client cancels).
    [wrap_run fx_now] is the model of pkg/wrap as it is now, [grpc_run] the reference behaviour of a
-   real connection (validated against bufconn on every run).  Two classes of scenarios on which the
-   two differ are recorded as known findings ([known_class]); on everything else they are equal. *)
+   real connection (validated against bufconn on every run; the behaviours it assumes are the named
+   facts of Wrap/GrpcFacts.v).  Two classes of scenarios on which the two differ are recorded as known
+   findings ([known_class] 1 and 2); on everything else they are equal. *)
 From SC Require Import Base.Prelude Wrap.Stream Wrap.GrpcSpec Wrap.C13Judge Wrap.Copy Wrap.StreamProofs.
 From SC Require Import Wrap.Sites Gen.WrapSites Wrap.SitesProofs.
 
@@ -104,8 +105,9 @@ Print Assumptions C13_every_boundary_site_copies.
 
 (* the switchable repairs of the model are set as the source has them: Close latches pending headers
    under a test of the context, SetHeader tests the latch before joining, doneErr can return ctx.Err(),
-   the server's SendMsg leaves on a finished context before latching; Close assigns closeErr before
-   closing anything (facts regenerated from stream.go on every run) *)
+   the server's SendMsg and SendHeader leave on a finished context before latching, the client's CloseSend
+   closes clientSend under a flag its SendMsg tests first; Close assigns closeErr before closing
+   anything (facts regenerated from stream.go on every run) *)
 Theorem C13_model_repairs_match_source :
   fx_now = wrap_fixes /\ wrap_close_err_first = true /\ wrap_order_problems = [].
 Proof. exact fixes_generated. Qed.
@@ -153,23 +155,24 @@ Definition differs (fx : fixes) (sc : scenario) : Prop :=
 
 (* before 265f37f: a header set but not sent is lost when the handler returns *)
 Theorem C13_header_on_return_v0_refuted :
-  differs (mkFx false true true true) (mkScn Unary 5 [] CtxLive [SetH [(0, 1)]; Ret (RetStatus 5 3)]).
+  differs (mkFx false true true true true true) (mkScn Unary 5 [] CtxLive [SetH [(0, 1)]; Ret (RetStatus 5 3)]).
 Proof. repeat split; try reflexivity. vm_compute. discriminate. Qed.
 
 (* before c5fbe0f: SetHeader after the first message is accepted and shown to the client *)
 Theorem C13_late_set_header_v0_refuted :
-  differs (mkFx true false true true)
+  differs (mkFx true false true true true true)
           (mkScn ServerStream 2 [] CtxLive [S2C 1; SetH [(0, 1)]; CHeader; Ret (RetOk 0)]).
 Proof. repeat split; try reflexivity. vm_compute. discriminate. Qed.
 
 (* before 7bd1900: Invoke on a cancelled context returns io.EOF *)
 Theorem C13_context_error_v0_refuted :
-  differs (mkFx true true false true) (mkScn Unary 5 [] CtxCanceled []).
+  differs (mkFx true true false true true true) (mkScn Unary 5 [] CtxCanceled []).
 Proof. repeat split; try reflexivity. vm_compute. discriminate. Qed.
 
-(* before 4e39ea2: a unary handler answering after the cancel publishes its pending headers *)
+(* before 4e39ea2: a unary handler answering after the cancel publishes its pending headers (SendMsg
+   latched them through SendHeader, which did not look at the context either) *)
 Theorem C13_send_after_cancel_v0_refuted :
-  differs (mkFx true true true false) (mkScn UnaryAsStream 56 [] CtxLive [SetH [(0, 1)]; Cancel false]).
+  differs (mkFx true true true false false true) (mkScn UnaryAsStream 56 [] CtxLive [SetH [(0, 1)]; Cancel false]).
 Proof. repeat split; try reflexivity. vm_compute. discriminate. Qed.
 
 Theorem C13_wrapper_equals_grpc_v0_refuted : exists sc, differs fx_v0 sc.
@@ -194,18 +197,36 @@ Proof.
   repeat split; try reflexivity. vm_compute. discriminate.
 Qed.
 
-(* class 4: the handler sends headers after the client's context has ended (none sent before): the
-   wrapper's Header() shows them afterwards, a real connection delivers nothing to a finished call *)
-Theorem C13_header_after_context_end_refuted : exists sc,
-  wf sc = true /\ known_class sc = Some 4 /\ wrap_run fx_now sc <> grpc_run sc.
-Proof.
-  exists (mkScn Bidi 0 [] CtxLive [CtxEnd false; SendH [(0, 7)]; Ret (RetOk 0)]).
-  repeat split; try reflexivity. vm_compute. discriminate.
-Qed.
+(* ---- the two classes repaired last ---- *)
 
-(* class 3 (outside every scenario): SendMsg after CloseSend and a second CloseSend panic in the
-   wrapper; a real connection answers with an Internal error and with nil *)
-Theorem C13_client_misuse_refuted : forall k, w_misuse k <> g_misuse k.
+(* former class 4, before the SendHeader repair: the handler sends headers after the client's context has
+   ended (none sent before): the wrapper's Header() showed them afterwards, a real connection delivers
+   nothing to a finished call.  Now covered by C13_wrapper_equals_grpc (no guard excludes it). *)
+Theorem C13_header_after_context_end_v0_refuted :
+  differs (mkFx true true true true false true)
+          (mkScn Bidi 0 [] CtxLive [CtxEnd false; SendH [(0, 7)]; Ret (RetOk 0)]).
+Proof. repeat split; try reflexivity. vm_compute. discriminate. Qed.
+
+(* whatever a handler sets or sends as headers after the client's context has ended (any mix of SetHeader /
+   SendHeader / SetTrailer-with-nothing / failing sends and receives, any return), the client's view is the
+   one of a real connection: an instance of the main theorem, stated for the scenarios of former class 4 *)
+Theorem C13_header_after_context_end_equal : forall sc,
+  wf sc = true -> no_known sc = true -> k4_steps false (steps sc) = true ->
+  wrap_run fx_now sc = grpc_run sc.
+Proof. intros sc Hwf Hnk _. exact (wrapper_equals_grpc sc Hwf Hnk). Qed.
+
+Example C13_nonvacuous_header_after_context_end :
+  let sc := mkScn Bidi 0 [] CtxLive [SetH [(1, 2)]; CtxEnd true; SendH [(0, 7)]; SetH [(2, 3)]; Ret (RetStatus 5 1)] in
+  wf sc = true /\ no_known sc = true /\ k4_steps false (steps sc) = true /\
+  fst (wrap_run fx_now sc) = [CEnd ODeadline; CHdr []; CTrl []].
+Proof. repeat split; reflexivity. Qed.
+
+(* former class 3 (client misuse, outside every scenario): SendMsg after CloseSend and a second CloseSend
+   panicked in the wrapper; a real connection answers with an Internal error and with nil -- and so does the
+   wrapper now (the call is not aborted as grpc-go's finish does: what follows the misuse is not judged) *)
+Theorem C13_client_misuse_equal : forall k, w_misuse fx_now k = g_misuse k.
+Proof. destruct k; reflexivity. Qed.
+Theorem C13_client_misuse_v0_refuted : forall k, w_misuse (mkFx true true true true true false) k <> g_misuse k.
 Proof. destruct k; discriminate. Qed.
 
 (* ---- non-vacuity ---- *)
